@@ -21,13 +21,54 @@ def gen_case(rng, k):
     if not segs:
         segs = [0]
     ivs = [rng.choice([-9, -5, -3, -2, -1, 1, 1, 2, 3, 4, 7, 9]) for _ in range(rng.randint(0, 3))]
-    return {"driver": rng.choice(["canonical", "canonical", "fbmc"]), "intervals": ivs,
+    return finish_case(rng, segs, {"driver": rng.choice(["canonical", "canonical", "fbmc"]), "intervals": ivs,
             "logger": rng.choice([None, 1, 1, 2, 3, -2]), "traj": rng.choice([None, 1, 2, -1]),
             "segments": segs, "entry": rng.choice(["run", "srun", "irun"]),
             "seed": rng.randint(1, 2**31), "geom_seed": rng.randint(0, 10**6),
             # the driver's own logging_interval: it is the interval of the logger/trajectory the driver builds itself
             # (streams=True) and must not influence any other observer
-            "logging_interval": rng.choice([1, 1, 2, 3, 4, 5]), "streams": rng.random() < 0.35}
+            "logging_interval": rng.choice([1, 1, 2, 3, 4, 5]), "streams": rng.random() < 0.35})
+
+
+def finish_case(rng, segs, c):
+    r2 = random.Random(c["seed"] ^ 0xC15)
+    if c["intervals"] and len(segs) > 1 and r2.random() < 0.35:
+        # observer.interval is a public attribute: re-tuned between two run calls (log every step while equilibrating, every k-th afterwards)
+        c["retune"] = {"seg": r2.randint(1, len(segs) - 1), "obs": r2.randrange(len(c["intervals"])), "interval": r2.choice([1, 2, 3, 5, -4, -8])}
+    return c
+
+
+def seg_obs(case, si):
+    """observers (name, interval) in force during segment si"""
+    obs = model_obs(case)
+    rt = case.get("retune")
+    if rt and si >= rt["seg"]:
+        obs = [(nm, rt["interval"] if nm == 10 + rt["obs"] else iv) for nm, iv in obs]
+    return obs
+
+
+def oracle_retuned(case, r):
+    n = sum(case["segments"])
+    ev, why = r["events"], []
+    steps = [e[1] for e in ev if e[0] == 2]
+    if steps != list(range(n)) or r["step_count"] != n:
+        why.append(f"steps performed {steps} / counter {r['step_count']} for {n} requested")
+    exp = {nm: [] for nm, _ in model_obs(case)}
+    count, started = 0, False
+    for si, seg in enumerate(case["segments"]):
+        obs = seg_obs(case, si)
+        ks = ([0] if count == 0 and not started else []) + list(range(count + 1, count + seg + 1))
+        started = True
+        for k in ks:
+            for nm, iv in obs:
+                if (iv > 0 and k % iv == 0) or (iv < 0 and k == -iv):
+                    exp[nm].append(k)
+        count += seg
+    for nm in exp:
+        calls = [e[2] for e in ev if e[0] == 1 and e[1] == nm]
+        if calls != exp[nm]:
+            why.append(f"observer {nm}: called at {calls}, expected {exp[nm]} (interval re-tuned to {case['retune']['interval']} before segment {case['retune']['seg']} of {case['segments']})")
+    return why
 
 
 def model_obs(case):
@@ -101,17 +142,22 @@ def run(res: C.Result):
             continue
         if len(c["segments"]) > 1 and model_obs(c):
             distinct.add((tuple(c["segments"]), tuple(model_obs(c)), c["entry"]))
-        why = oracle(c, r, b)
-        if why:
+        why = oracle_retuned(c, r) if c.get("retune") else oracle(c, r, b)
+        if c.get("retune"):
+            dist["retuned"] = dist.get("retuned", 0) + 1
+        if why and c.get("retune"):
+            res.fail("interval-retuned-between-runs", "; ".join(why[:3]), {"input": c, "observed": {"events": r["events"], "step_count": r["step_count"]}})
+        elif why:
             sig = "zero-length-segment-at-step-0" if c["segments"][0] == 0 and len(c["segments"]) > 1 else "other"
             res.fail(sig, "; ".join(why[:4]), {"input": c, "observed": {"events": r["events"], "step_count": r["step_count"]},
                                                 "expected_unsplit_events": b["events"]})
         flat = [x for e in r["events"] for x in e]
-        obs = "[" + "; ".join(f"{{| oname := {nm}; ointerval := {C.zlit(iv)} |}}" for nm, iv in model_obs(c)) + "]"
-        coq_items.append(f"({k}%nat, ({C.blit(c['logger'] is not None)}, {obs}, {C.zlist(c['segments'])}), {C.zlist(flat)})")
+        segs = "[" + "; ".join("([" + "; ".join(f"{{| oname := {nm}; ointerval := {C.zlit(iv)} |}}" for nm, iv in seg_obs(c, si)) + f"], {C.zlit(seg)})"
+                               for si, seg in enumerate(c["segments"])) + "]"
+        coq_items.append(f"({k}%nat, ({C.blit(c['logger'] is not None)}, {segs}), {C.zlist(flat)})")
     hdr = ("From QV Require Import Model.Driver Model.Algebra.\n"
-           "Definition f (x : bool * list observer * list Z) : list Z := let '(lg, obs, segs) := x in "
-           "enc_events (fst (runs false lg obs fresh segs)).\n")
+           "Definition f (x : bool * list (list observer * Z)) : list Z := let '(lg, segs) := x in "
+           "enc_events (fst (runs_var false lg fresh segs)).\n")
     disagree = []
     for i in range(0, len(coq_items), 500):
         body, err = C.coq_eval_list(res.workdir, hdr, f"disagreements f [{'; '.join(coq_items[i:i + 500])}]", tag=f"c15_{i}")
@@ -127,7 +173,7 @@ def run(res: C.Result):
              "run(n) and with the Coq model's event list; non-trivial = distinct (split, observers, entry) with >1 segment "
              "and >=1 observer",
         correspondence={"flavour": "functional", "cases": len(coq_items), "disagreed": len(disagree),
-                        "agreed": len(coq_items) - len(disagree), "model": "Driver.runs false"},
+                        "agreed": len(coq_items) - len(disagree), "model": "Driver.runs_var false (= Driver.runs when no interval is re-tuned: runs_var_const)"},
         direct_oracle={"evaluations": ncases, "failures": len(res.failures)}, input_distribution=dist)
     res.samples += [{"case": cases[i], "events": R[i].get("events")} for i in (0, 1, 5)]
     res.assumptions += ["step events are observed by wrapping the instance's step(); header/rows by subclassing Logger",
